@@ -44,7 +44,20 @@ package apierror
 //@   at call apierror.New: assert arg0 == inner && inner != nil
 //@   ensures-local count("call:Unmarshal") == 1 && count("call:Errorf") == 0 ==> count("call:errors.New") == 1 && inner != nil && (result == inner || count("call:apierror.New") == 1)
 
+// EncodeError: what is encoded is the text of the error given (the whole error, wrapper text included - for
+// a status-only API error that is the status text) and the status of the API error found in its chain, if
+// any; encoded exactly once.
 //@ func EncodeError
 //@   property C19
 //@   at call As: after assume result ==> apierr != nil
 //@   ensures err == nil ==> result == nil
+//@   ghost msg := 0
+//@   ghost st := 0
+//@   ghost isAPI := false
+//@   at call Error: assert arg0 == old(err)
+//@   at call Error: after ghost msg := str(result)
+//@   at call As: assert arg0 == old(err)
+//@   at call As: after ghost isAPI := result
+//@   at call Status: after ghost st := result
+//@   at call Marshal: assert typeis(arg0, "*apierror.ErrorMessage") && str(as(arg0, "*apierror.ErrorMessage").Message) == msg && as(arg0, "*apierror.ErrorMessage").Status == ite(isAPI, st, 0)
+//@   ensures-local old(err) != nil ==> count("call:Marshal") == 1 && count("call:error.Error") == 1 && count("call:As") == 1 && (isAPI ==> count("call:Status") == 1)
